@@ -16,12 +16,15 @@ tech="deterministic simulation: real goroutines released one at a time by a seed
 chk("C01","exploration","Seeded exploration of interleavings of request delivery, With/WithResource/WithGroup from foreign goroutines, query requests/expiry and worker wake-ups over generated pattern/group configurations; per-group occupancy counter with reference group ids is checked at every callback entry.",base_note,tech,"5/C01")
 chk("C02","exploration","Same runs as C01; recorded submit/deliver/start history is checked for per-group linear extension of submission precedence, at-most-once always and exactly-once at quiescence before clean shutdown, and With's error contract against the reference matcher.",base_note,tech,"5/C02")
 chk("C03","exploration","Shutdown injected at tape-chosen steps into live workloads with 1-3 Serve/Shutdown cycles; bounded progress after faults stop, panic freedom (harness tasks and library goroutines), drain and close-once, and effect/no-effect of calls entirely inside the started/stopped windows.",base_note,tech,"5/C03")
+chk("C04","exploration","Seeded exploration of handler behaviour scripts (reply/double reply/no reply/panic kinds/pre-responses/events/meta) x request kinds x payloads under concurrent load with slow-consumer drops, request loss and publish errors; exactly-one-response per reply inbox is decided at quiescence, which is a scheduler fact rather than a timeout.",base_note,tech,"5/C04")
+chk("C05","exploration","Refinement of the running service against an executable dispatch model and a response model, per request, with other requests in flight on other workers; request data seen by the handler must equal what the peer sent for that inbox.",base_note+" The dispatch and response models are written from the RES protocol and go-res documentation and are part of the trusted base.",tech,"5/C05")
+chk("C07","exploration","Transport monitor: every message the service publishes in the requests and core scenarios (including after injected marshal failures and publish errors) is validated at publish time by an independent protocol validator.",base_note+" The validator is written from the protocol text and is part of the trusted base.",tech,"5/C07")
 na=[
  {"property_id":"C06","reason":"Mux.GetHandler is a pure function of (pattern set, name): no schedule, clock, fault or multi-party history for a simulator to range over; routing is exercised by C01/C05 whose reference matcher would disagree, but the for-all over pattern sets is not claimed."},
  {"property_id":"C17","reason":"Pure string functions of (pattern, name, tag map); nothing concurrent, timed or faulty to simulate."},
  {"property_id":"C18","reason":"Pure marshal/unmarshal round trips; the one multi-party clause (client package parsing service responses) is incidentally exercised by C05's peer but is not a simulation decision."},
 ]
-pending=["C04","C05","C07","C08","C09","C10","C11","C12","C13","C14","C15","C16","C19","C20"]
+pending=["C08","C09","C10","C11","C12","C13","C14","C15","C16","C19","C20"]
 for p in pending:
     na.append({"property_id":p,"reason":"check not built yet in this revision of /verif (planned in DESIGN.md section 5); not claimed until its scenario and oracle exist"})
 m={"version":1,
